@@ -4,8 +4,12 @@ from gen import extract_facts
 generate_facts = extract_facts.generate
 
 ID = "C10"
-LEAN_MODULES = ["Econf.Props.C10", "Econf.Props.Tie"]
-THEOREMS = ["Econf.C10_readonly", "Econf.C10_later_answers", "Econf.C10_later_write", "Econf.Struct.C10_frames", "Econf.Struct.api_frames"]
+LEAN_MODULES = ["Econf.Props.C10", "Econf.Props.Tie", "Econf.Props.LeafKf"]
+# look-ups translated from the C source on every run (gen/c2lean.py): find_key leaves the memory the caller can see alone except *num,
+# and releases its copy of the group name on every path (lean/Econf/Props/LeafKf.lean)
+LEAF_FNS = ["find_key", "first_entry", "has_group"]
+THEOREMS = ["Econf.C10_readonly", "Econf.C10_later_answers", "Econf.C10_later_write", "Econf.Struct.C10_frames", "Econf.Struct.api_frames",
+            "LeafKf.C_find_key", "LeafKf.C_first_entry", "LeafKf.C_has_group"]
 RULE = ("random configurations (parsed and built, with mixed-case, boolean-like and non-boolean values) x random sequences of 1..40 "
         "read-only calls (listings, typed/defaulted/extended getters incl. failing ones, path/tag queries, writes, use as merge input); "
         "the full dump (entries, comments, line numbers, public view, written bytes) before and after must be identical; "
